@@ -445,6 +445,17 @@ fn c13(seed: u64, thorough: bool) -> Scenario {
         g.world.files[fi].blocks.clear();
     }
     let pos = g.rng.below(g.world.files[fi].blocks.len() + 1);
+    // "placed on any block": now and then as a nested block of a rule-less parent
+    let block = if g.rng.chance(1, 5) {
+        BlockSpec {
+            attrs: if g.rng.chance(1, 2) { vec![("name".into(), g.fresh_name())] } else { vec![] },
+            lines: if g.rng.chance(1, 2) { vec!["omega".into()] } else { vec![] },
+            children: vec![block],
+            tail: vec![],
+        }
+    } else {
+        block
+    };
     g.world.files[fi].blocks.insert(pos, block);
     let carrier_path = g.world.files[fi].path.clone();
 
@@ -946,7 +957,7 @@ fn c18(seed: u64, thorough: bool) -> Scenario {
     let fault_cfg = g.rng.chance(1, 2);
     if fault_cfg {
         // one (sometimes two) scripted blocks fail, each in its own script file
-        let nf = if g.rng.chance(1, 5) { 2 } else { 1 };
+        let nf = *g.rng.pick(&[1usize, 1, 1, 1, 2, 2, 3, 4]);
         let mut lua_blocks: Vec<(usize, Vec<usize>)> = Vec::new();
         for (fi, f) in g.world.files.iter().enumerate() {
             let r = render_file(f, false);
